@@ -182,11 +182,22 @@ func (sdc *signingDoneCheck) waitUntilAllDone(ctx context.Context) (
 			return nil, 0, errWaitDoneTimedOut
 
 		case <-ticker.C:
-			if sdc.expectedSignersCount == len(sdc.doneSigners) {
+			sdc.doneSignersMutex.Lock()
+			doneSigners := make(
+				[]*signingDoneMessage,
+				0,
+				len(sdc.doneSigners),
+			)
+			for _, doneMessage := range sdc.doneSigners {
+				doneSigners = append(doneSigners, doneMessage)
+			}
+			sdc.doneSignersMutex.Unlock()
+
+			if sdc.expectedSignersCount == len(doneSigners) {
 				var signature *tecdsa.Signature
 				var latestEndBlock uint64
 
-				for _, doneMessage := range sdc.doneSigners {
+				for _, doneMessage := range doneSigners {
 					if signature == nil {
 						signature = doneMessage.signature
 					} else {
